@@ -759,6 +759,16 @@ fn on_recv(m: &mut Mdl, pre: &Mdl, ap: &AP, frame: &[u8], c: &Call, r: &mut Rule
                 note(Note::MustNotChange { what: "CONNECT on an established connection", rule: "c17.connect-on-established-state" });
             }
         }
+        AP::Connack { .. } if !pre.as_client && pre.st != St::Disc => {
+            // a CONNACK reaching the side that received the CONNECT (possible for role Any)
+            r.label("c17.connack-to-server-side");
+            if delivered || !c.errors().iter().any(is_protocol_error_class) {
+                r.viol("c17.connack-on-established", pre, format!("a CONNACK arriving at the side that acts as the server (it received the CONNECT) must be a protocol error and must not be delivered: {}", c.describe()));
+                r.viol("c08.connack-to-server-side", pre, format!("a CONNACK arriving at the side that acts as the server is processed: {}", c.describe()));
+            }
+            note(Note::MustNotChange { what: "CONNACK at the server side", rule: "c17.connack-on-established-state" });
+            note(Note::MustNotChange { what: "CONNACK at the server side", rule: "c08.connack-to-server-side-state" });
+        }
         AP::Connack { sp, code, props, .. } => {
             if pre.st == St::Connecting {
                 if !delivered {
@@ -956,9 +966,16 @@ fn on_recv(m: &mut Mdl, pre: &Mdl, ap: &AP, frame: &[u8], c: &Call, r: &mut Rule
                                     }
                                     r.label("ack.pubrec-error");
                                 } else {
-                                    m.ids.insert(id, if c.sent_ack(AckKind::Pubrel, id) { Owner::Rel } else { Owner::RelOwed });
+                                    // with automatic responses the PUBREL is the library's business: transmitted when
+                                    // connected, otherwise (a PUBREC the client pipelined behind its CONNECT) queued in the
+                                    // store of a persistent session
+                                    m.ids.insert(id, if c.sent_ack(AckKind::Pubrel, id) || pre.auto_pub { Owner::Rel } else { Owner::RelOwed });
                                     if pre.auto_pub && pre.st == St::Connected && !c.sent_ack(AckKind::Pubrel, id) {
                                         r.viol("c06.no-auto-pubrel", pre, format!("automatic responses are on but PUBREC {id} is not answered with PUBREL: {}", c.describe()));
+                                    }
+                                    if pre.auto_pub && pre.st != St::Connected {
+                                        r.label("c06.auto-pubrel-while-not-connected");
+                                        note(Note::Rel { id });
                                     }
                                 }
                             }
@@ -1173,6 +1190,19 @@ pub fn after_step<P: Pid>(m: &mut Mdl, pre_m: &Mdl, pre: &VerifState, post: &Ver
     if real_handled != m.q2_notified {
         r.viol("c07.handled-set", pre_m, format!("get_qos2_publish_handled() = {real_handled:?} but the ids notified and awaiting PUBREL are {:?}", m.q2_notified));
         m.q2_notified = real_handled;
+    }
+    // C12: vacancy while the server still owes the CONNACK: the peer's Receive Maximum is known from its CONNECT,
+    // and every incomplete exchange of the session (all continue on this connection) already counts
+    if m.st == St::Connecting && !m.as_client && m.ver == Some(Ver::V5) {
+        if let Some(mx) = m.link.peer_rm {
+            let n = m.ids.values().filter(|o| matches!(o, Owner::Pub1 | Owner::Pub2 | Owner::Rel | Owner::RelOwed)).count() as u32;
+            let exp = (mx as u32).saturating_sub(n) as u16;
+            let got = conn.vacancy();
+            r.label("c12.vacancy-checked-connecting");
+            if got != Some(exp) {
+                r.viol("c12.vacancy-connecting", pre_m, format!("between CONNECT and CONNACK get_receive_maximum_vacancy_for_send() = {got:?}, expected Some({exp}) (the client announced Receive Maximum {mx}; {n} exchanges of the session are incomplete)"));
+            }
+        }
     }
     // C12: vacancy
     if m.st == St::Connected && m.ver == Some(Ver::V5) {
